@@ -244,8 +244,7 @@ def closeDelimiter (d : Delim) : M Unit := do
     if open_ = d then pure () else failWith (mkError .mismatchedClosingDelimiter)
   | [] => failWith (mkError .unexpectedClosingDelimiter)
 
-/-- `Lexer::lex_delimiter` -/
-def lexDelimiter (k : Kind) : M Unit := do
+def delimiterAction (k : Kind) : M Unit :=
   match k with
   | .braceL => openDelimiter .brace
   | .braceR => closeDelimiter .brace
@@ -254,6 +253,10 @@ def lexDelimiter (k : Kind) : M Unit := do
   | .parenL => openDelimiter .paren
   | .parenR => closeDelimiter .paren
   | _ => failWith (internalError "lex_delimiter called with non-delimiter token")
+
+/-- `Lexer::lex_delimiter` -/
+def lexDelimiter (k : Kind) : M Unit := do
+  delimiterAction k
   lexSingle k
 
 /-- the tail of `lex_choices` / `lex_digraph` when no second character matched -/
@@ -312,11 +315,14 @@ def lexEscape : M Unit := do
     | _ :: _ => failWith (mkError .invalidEscapeSequence)
     | [] => token .whitespace
 
-/-- `Lexer::lex_eol` -/
-def lexEol : M Unit := do
+def lexEolHead : M Unit := do
   if (← accepted '\r') then
     (if !(← accepted '\n') then failWith (mkError .unpairedCarriageReturn) else pure ())
   else presume '\n'
+
+/-- `Lexer::lex_eol` -/
+def lexEol : M Unit := do
+  lexEolHead
   let s ← get
   if s.delims.isEmpty then token .eol else token .whitespace
 
@@ -406,22 +412,32 @@ def bodyLoop : List Char → Nat → M Terminator
     else if ['{', '{'].isPrefixOf (c :: cs) then pure .interpolation
     else do advance; bodyLoop cs 0
 
-/-- `Lexer::lex_body` -/
-def lexBody : M Unit := do
-  let s0 ← get
-  let t ← bodyLoop s0.rest 0
+/-- emit the text scanned so far, if any -/
+def flushText : M Unit := do
   let s ← get
-  if s.tokEnd.offset - s.tokStart.offset > 0 then token .text
+  if s.tokEnd.offset - s.tokStart.offset > 0 then token .text else pure ()
+
+def pushInterpolation : M Unit := do
+  let s1 ← get
+  match s1.tokens with
+  | t :: _ => setFrame (fun s => { s.frame with interp := t :: s.interp })
+  | [] => failWith (internalError "no token")
+
+def bodyTerminator (t : Terminator) : M Unit :=
   match t with
   | .newline => lexSingle .eol
   | .newlineCarriageReturn => lexDouble .eol
   | .interpolation => do
     lexDouble .interpolationStart
-    let s1 ← get
-    match s1.tokens with
-    | t :: _ => setFrame (fun s => { s.frame with interp := t :: s.interp })
-    | [] => failWith (internalError "no token")
+    pushInterpolation
   | .endOfFile => pure ()
+
+/-- `Lexer::lex_body` -/
+def lexBody : M Unit := do
+  let s0 ← get
+  let t ← bodyLoop s0.rest 0
+  flushText
+  bodyTerminator t
 
 inductive Indentation where
   | blank | continue_ | decrease | inconsistent | increase | mixed
@@ -451,9 +467,9 @@ def classify (s : St) : Indentation × List Char :=
 /-- `Lexer::lex_line_start` -/
 def lexLineStart : M Unit := do
   let s ← get
-  let (indentation, whitespace) := classify s
+  let whitespace := (classify s).2
   let ind := topIndentation s
-  match indentation with
+  match (classify s).1 with
   | .blank =>
     if !whitespace.isEmpty then do advanceWhile isBlankChar; token .whitespace else pure ()
   | .continue_ =>
@@ -479,17 +495,24 @@ def lexLineStart : M Unit := do
       token .indent
       setFrame (fun s2 => if s2.recipeBodyPending then { s2.frame with recipeBody := true } else s2.frame)
 
+def lineStartIfNeeded : M Unit := do
+  let s ← get
+  if s.tokStart.column = 0 then lexLineStart else pure ()
+
+def dispatch (first : Char) : M Unit := do
+  let s1 ← get
+  match s1.interp with
+  | istart :: _ => lexInterpolation istart first
+  | [] => if s1.recipeBody then lexBody else lexNormal first
+
 /-- one iteration of the main loop of `Lexer::tokenize`; `false` = end of input -/
 def stepMain : M Bool := do
-  let s ← get
-  if s.tokStart.column = 0 then lexLineStart
+  lineStartIfNeeded
   let s1 ← get
   match s1.rest with
   | [] => pure false
   | first :: _ => do
-    match s1.interp with
-    | istart :: _ => lexInterpolation istart first
-    | [] => if s1.recipeBody then lexBody else lexNormal first
+    dispatch first
     pure true
 
 def fuelError (s : St) : Err :=
@@ -504,29 +527,28 @@ def dedentAll : List (List Char) → M Unit
   | [] => pure ()
   | top :: below => if top.isEmpty then pure () else do lexDedent; dedentAll below
 
-/-- the part of `Lexer::tokenize` after the main loop, with its three final assertions as checks -/
-def finish (src : List Char) : M Unit := do
+/-- the part of `Lexer::tokenize` after the main loop -/
+def finish : M Unit := do
   let s ← get
   match s.interp with
   | istart :: _ => throw { kind := .unterminatedInterpolation, tok := istart }
   | [] => do
     dedentAll s.indentation
     token .eof
-    let s2 ← get
-    if s2.tokStart.offset ≠ s2.tokEnd.offset then failWith (internalError "assert token_start = token_end")
-    else if s2.tokStart.offset ≠ utf8Len src then failWith (internalError "assert token_start = src.len()")
-    else if s2.indentation.length ≠ 1 then failWith (internalError "assert indentation.len() = 1")
-    else pure ()
 
 def tokenizeM (src : List Char) : M Unit := do
   mainLoop (src.length + 1)
-  finish src
+  finish
 
-/-- `Lexer::tokenize` -/
+/-- `Lexer::tokenize`; its three final `assert_eq!`s are explicit checks -/
 def tokenize (src : List Char) : Except Err (List Tok) :=
   match tokenizeM src (initial src) with
   | .error e => .error e
-  | .ok ((), s) => .ok s.tokens.reverse
+  | .ok ((), s) =>
+    if s.tokStart.offset ≠ s.tokEnd.offset then .error (internalError "assert token_start = token_end" s)
+    else if s.tokStart.offset ≠ utf8Len src then .error (internalError "assert token_start = src.len()" s)
+    else if s.indentation.length ≠ 1 then .error (internalError "assert indentation.len() = 1" s)
+    else .ok s.tokens.reverse
 
 def Kind.name : Kind → String
   | .ampersandAmpersand => "AmpersandAmpersand" | .asterisk => "Asterisk" | .at => "At" | .backtick => "Backtick"
